@@ -1,4 +1,4 @@
-CONSTANTS MaxScript = 0 MaxN = 9 Dev = {}
+CONSTANTS MaxScript = 0 MaxPause = 0 MaxN = 9 Dev = {}
 INIT FileInit
 NEXT Stutter
 INVARIANT JudgeRef
